@@ -311,6 +311,10 @@ def gauss_seidel(A, x, b, iterations=1, sweep='forward', omega=1.0):
     """
     A, x, b = make_system(A, x, b, formats=['csr', 'bsr'])
 
+    if omega != 1.0 and sparse.issparse(A) and A.format == 'bsr':
+        # the BSR kernel has no relaxation parameter; point-wise SOR on the same matrix
+        A = A.tocsr()
+
     if sparse.issparse(A) and A.format == 'csr':
         blocksize = 1
     else:
